@@ -119,7 +119,7 @@ package statesync
 //@   assigns except(types, sm, statesync.snapshot)
 //@ func snapshotPool.removePeer
 //@   trusted
-//@   assigns except(types, sm, statesync.snapshot)
+//@   assigns except(types, sm, statesync.snapshot, statesync.syncer)
 //@ func chunkQueue.Retry
 //@   assigns except(types, sm, statesync.snapshot)
 //@   ensures again: !q.chunkReturned[index]
@@ -131,6 +131,9 @@ package statesync
 //@   loop 2 invariant t: true
 //@   loop 3 invariant t: true
 //@   atcall AppConnSnapshot.ApplySnapshotChunkSync exact: arg0.Index == chunk.Index && arg0.Chunk == chunk.Chunk && arg0.Sender == string(chunk.Sender)
+// A sender the application rejects is blacklisted in the snapshot pool (never used again) by the time its queued
+// chunks are discarded.
+//@   atcall chunkQueue.DiscardSender rejected: s.snapshots.peerBlacklist[arg1]
 //@ func syncer.Sync
 //@   loop 1 invariant t: true
 //@   ensures trusted: result2 == nil ==> (provAppHash(snapshot.trustedAppHash, snapshot.Height) && provCommit(result1, snapshot.Height) &&
@@ -200,7 +203,7 @@ package statesync
 //@   ensures listed: p.formatBlacklist[format]
 //@   loop 1 invariant t: true
 //@ func snapshotPool.RejectPeer
-//@   assigns except(types, sm, statesync.snapshot)
+//@   assigns except(types, sm, statesync.snapshot, statesync.syncer)
 //@   ensures listed: peerID != "" ==> p.peerBlacklist[peerID]
 
 // ---------------------------------------------------------------------------------------------------------------
